@@ -36,8 +36,11 @@ def model(ctx):
     if r.violated != "Inv_ScanResultAll":
         ctx.drift.append("FloxScan.tla: the nan-last state no longer loses a NaN running sum in the model (known finding F12, second mechanism) — has Scan.tla changed?")
     c3 = dict(maxlen=3, nlabels=2, wide=False, dtypes=("f8", "i8"), arrdasks=(True,), bydasks=(False,), argsets=("none",))
+    # the two deep witnesses (a finished three-block run, a range split in two ways) on a one-label, one-function instance
+    c4 = dict(maxlen=3, minlen=3, nlabels=1, wide=False, funcs=("nancumsum",), dtypes=("f8",), arrdasks=(True,), bydasks=(False,), argsets=("none",))
     for w in WITNESSES:
-        r = shared.run_model(ctx, "FloxScan", scancompose.cfg_text(**c3) + f"INVARIANT {w}\n", name=f"FloxScan(vacuity witness {w})", constants="MaxLen=3", heap="8g")
+        cw_ = c4 if w in ("W_Chunked3", "W_Split") else c3
+        r = shared.run_model(ctx, "FloxScan", scancompose.cfg_text(**cw_) + f"INVARIANT {w}\n", name=f"FloxScan(vacuity witness {w})", constants="MaxLen=3", heap="8g")
         if r.violated != w:
             raise MachineryFailure(f"FloxScan.tla: witness {w} not reached — the composed scan model never exercises that path")
 
@@ -73,7 +76,7 @@ def _simulate_parallel(n, seed, configs):
     return behs, states
 
 
-def replay(ctx, clauses, *, n=None):
+def replay(ctx, clauses, *, n=None, report_others=True):
     if n is None:
         n = 2400 if ctx.tier == "quick" else 60_000
     big = 6 if ctx.tier == "quick" else 7
@@ -108,7 +111,7 @@ def replay(ctx, clauses, *, n=None):
         for clause, detail in r["fails"]:
             if clause in clauses:
                 ctx.violation(dict(r["case"], compose_scan=True, spec=r["spec"]), clause, detail)
-            else:
+            elif report_others:
                 ctx.drift.append(f"{clause} (owned by another property's check): {detail if isinstance(detail, str) else detail.get('msg')} case={r['case']}")
     if behs:
         ctx.sample({"scan_compose_behaviour": {k: behs[0][k] for k in ("vals", "labs", "cuts", "cfg", "plan", "out")}})
